@@ -285,9 +285,9 @@ def alias_fragment(eng, model, opts, upto):
 
 
 def alias_model(canon=None):
-    vx, vy, vs, vp = variable("x"), variable("y"), variable("s"), variable("p")
+    vx, vy, vs, vp, vw = variable("x"), variable("y"), variable("s"), variable("p"), variable("w")
     rel = AliasRel(canon or {})
-    model = VObj(VClass("Model"), {"states": VList([vs]), "der_states": VList([variable("der(s)")]), "alg_states": VList([vx, vy]),
+    model = VObj(VClass("Model"), {"states": VList([vs]), "der_states": VList([variable("der(s)")]), "alg_states": VList([vx, vy, vw]),
                                    "inputs": VList([]), "parameters": VList([vp]), "constants": VList([]), "alias_relation": rel})
     return model, rel
 
@@ -341,7 +341,9 @@ def h_make_alias(eng):
     negative = bool(eng.choice(2))
     allow_der = eng.input("allow_derivative_aliases", eng.fresh_bool("allow_der"))
     # x may already be aliased to the state s (its canonical variable is then not eliminable), to y, or to -y
-    PRE = [{"x": "x"}, {"x": "s"}, {"x": "y"}, {"x": ("y", -1)}, {"x": ("s", -1)}]
+    PRE = [{"x": "x"}, {"x": "s"}, {"x": "y"}, {"x": ("y", -1)}, {"x": ("s", -1)},
+           # both ends already belong to groups: one headed by an algebraic variable, the other by a parameter / state
+           {"x": "w", "y": "p"}, {"x": "p", "y": "w"}, {"x": "w", "y": ("s", -1)}, {"x": "w", "y": "w"}]
     pre = PRE[eng.choice(len(PRE))]
     x_canon = pre["x"]
     eng.input("pair", [n0, n1])
@@ -363,6 +365,12 @@ def h_make_alias(eng):
     # already known to be each other's NEGATION are never aliased positively (or vice versa): that equation forces the class to zero
     # and must stay in the system
     eng.prove("make.alias_relation_add_called_within_its_precondition", z3.BoolVal(not rel.bad_adds), bad=rel.bad_adds)
+    # (P) only algebraic unknowns are eliminated: add(a, b) makes the canonical variable of a's group the canonical variable of the merged
+    # group (C17), so a group headed by a state / input / parameter / constant must be the FIRST argument whenever the other group is
+    # headed by an algebraic variable -- otherwise the non-eliminable variable becomes an alias and is deleted with the aliases
+    dne = {"s", "der(s)", "p"}
+    unseated = [(a_, b_) for a_, b_ in rel.added if rel.cs(b_)[0] in dne and rel.cs(a_)[0] not in dne]
+    eng.prove("make.non_eliminable_canonical_variable_is_never_unseated", z3.BoolVal(not unseated), added=rel.added)
     if rel.added:
         a, b = rel.added[0]
         bname = b[1:] if isinstance(b, str) and b.startswith("-") else b
@@ -373,11 +381,153 @@ def h_make_alias(eng):
         eng.prove("make.no_alias_without_algebraic_variable_or_when_forbidden", z3.BoolVal(True))
 
 
+# ------------------------------------------------------------------------------------------------ reduce_affine_expression
+class RT(E):
+    """opaque term of the reduce_affine block (records how it was built)"""
+
+    def __init__(self, kind, *args, label=None):
+        E.__init__(self, "opaque", value=z3.RealVal(0))
+        self.rkind, self.rargs, self.label = kind, args, label
+
+    def sym_getattr(self, eng, name):
+        if name == "shape":
+            return (3, 1)
+        if name == "numel":
+            return stub(lambda eng: 1)
+        return E.sym_getattr(self, eng, name)
+
+    def sym_binop(self, eng, op, other, reflected):
+        return RT("binop:" + op, *((other, self) if reflected else (self, other)))
+
+    def __repr__(self):
+        return "RT(%s%s)" % (self.rkind, ":" + self.label if self.label else "")
+
+
+class RFn(Ext):
+    def __init__(self, name, ins, outs):
+        self.name, self.ins, self.outs = name, ins, outs
+
+    def sym_call(self, eng, args, kwargs):
+        return RT("call", self, tuple(args))
+
+
+def h_reduce_affine(eng):
+    """reduce_affine_expression: each equation list L becomes A_L * X + b_L with A_L, b_L the Jacobian / value of L's equations at X = 0.
+    (P, C14) where L's equations depend on the parameters (constants), A_L and b_L are evaluated AT the parameter (constant) vector, not
+    at 0 -- decided per list; (P, C15) both lists are written over the SAME vectors X, the ones the model keeps for its residual
+    functions when the block is done -- otherwise the residual function cannot be built."""
+    fns = {}
+    deps = {}
+    which = {"n": 0}
+    lists = [["equations"], ["initial_equations"], ["equations", "initial_equations"]][eng.choice(3)]
+    eng.input("non_empty_equation_lists", lists)
+    for L in ("equations", "initial_equations"):
+        for V in ("constants", "parameters"):
+            deps[(L, V)] = eng.input("%s_depend_on_%s" % (L, V), eng.fresh_bool("dep"))
+    vecs = {}
+
+    def veccat(eng, *parts):
+        parts = list(parts)
+        key = tuple(str(getattr(p_, "nm", None) or getattr(p_, "label", None) or "?") for p_ in parts)
+        t = RT("veccat", *parts, label=",".join(key))
+        return t
+
+    def depends_on(eng, eqs, vec):
+        L = getattr(eqs, "list_name", None)
+        V = "constants" if vec.label == "c0" else ("parameters" if vec.label == "p0" else None)
+        if L is None or V is None:
+            raise Unsupported("depends_on of unexpected terms %r %r" % (eqs, vec))
+        return deps[(L, V)]
+    mx = VClass("MX")
+    syms_made = []
+
+    def mx_sym(eng, name, n=1):
+        t = RT("sym", label=name)
+        t.nm = name
+        syms_made.append(t)
+        return t
+    mx.attrs["sym"] = stub(mx_sym)
+    fn_cls = VClass("Function")
+    fn_cls.constructor = lambda eng, c, a, k: RFn(a[0], eng.iterate(a[1]), eng.iterate(a[2]))
+    cas = M.install(eng, {"veccat": stub(veccat), "depends_on": stub(depends_on), "jacobian": stub(lambda eng, e, x: RT("jacobian", e, x)),
+                          "vertcat": stub(lambda eng, *a: RT("vertcat", *a)), "mtimes": stub(lambda eng, a, b: RT("mtimes", a, b)),
+                          "reshape": stub(lambda eng, e, shape: RT("reshape", e)), "MX": mx, "Function": fn_cls})
+    eng.ext_modules["itertools"].attrs["chain"] = stub(lambda eng, *a: VList([x for s_ in a for x in eng.iterate(s_)]))
+
+    def var(name):
+        v = variable(name)
+        sy = RT("sym", label=name)
+        sy.nm = name
+        v.fields["symbol"] = sy
+        return v
+    c0, p0 = var("c0"), var("p0")
+    eq_terms = {}
+    model_fields = {"states": VList([var("x")]), "der_states": VList([var("der(x)")]), "alg_states": VList([var("y")]), "inputs": VList([var("u")]),
+                    "constants": VList([c0]), "parameters": VList([p0])}
+    for L in ("equations", "initial_equations"):
+        model_fields[L] = VList([RT("residual", label=L)] if L in lists else [])
+    model = VObj(VClass("Model"), model_fields)
+
+    def symbols(eng, selfobj, variables):
+        return VList([v.fields["symbol"] for v in eng.iterate(variables)])
+    symbols._pyvc_method = True
+    model.cls.attrs["_symbols"] = symbols
+    # veccat of the equations of a list: remember which list it came from
+    orig_veccat = cas.attrs["veccat"]
+
+    def veccat2(eng, *parts):
+        t = veccat(eng, *parts)
+        if len(parts) == 1 and isinstance(parts[0], RT) and parts[0].rkind == "residual":
+            t.list_name = parts[0].label
+        if len(parts) == 1 and getattr(parts[0], "nm", None) in ("c0", "p0"):
+            t.label = parts[0].nm
+        return t
+    cas.attrs["veccat"] = stub(veccat2)
+    # numel of a symbol
+    for v in [x for lst in ("states", "der_states", "alg_states", "inputs", "constants", "parameters") for x in model_fields[lst].items]:
+        sy = v.fields["symbol"]
+    E_getattr = E.sym_getattr
+
+    opts = VDict([("reduce_affine_expression", True), ("expand_mx", False)])
+    try:
+        eng.exec_fragment(MODEL, "Model._simplify_once", M.block_selector("reduce_affine_expression"), {"self": model, "options": opts}, label="reduce-affine")
+    except PyRaise as e:
+        eng.prove("affine.no_exception", False, exc=repr(e.exc))
+        return
+    eng.cover("affine.done")
+    final = [model.fields.get(k) for k in ("_states_vector", "_der_states_vector", "_alg_states_vector", "_inputs_vector")]
+    ok_same, ok_params = True, []
+    for L in lists:
+        new = model.fields[L]
+        items = eng.iterate(new)
+        t = items[0] if len(items) == 1 else None
+        shape_ok = isinstance(t, RT) and t.rkind == "binop:Add" and isinstance(t.rargs[0], RT) and t.rargs[0].rkind == "reshape"
+        if not shape_ok:
+            eng.prove("affine.list_becomes_A_times_X_plus_b", False, got=repr(t))
+            return
+        mt = t.rargs[0].rargs[0]
+        A, X, b = mt.rargs[0], mt.rargs[1], t.rargs[1]
+        good = isinstance(A, RT) and A.rkind == "call" and A.rargs[0].name == "Af" and isinstance(b, RT) and b.rkind == "call" and b.rargs[0].name == "bf"
+        eng.prove("affine.list_becomes_A_times_X_plus_b", z3.BoolVal(bool(good)))
+        if not good:
+            return
+        # X is built from the vectors the model keeps
+        ok_same = ok_same and isinstance(X, RT) and X.rkind == "vertcat" and len(X.rargs) == 4 and all(a is f_ for a, f_ in zip(X.rargs, final))
+        for call in (A, b):
+            a0, cc, pp = call.rargs[1]
+            for V, arg in (("constants", cc), ("parameters", pp)):
+                symbolic = isinstance(arg, RT) and arg.rkind == "veccat" and arg.label == ("c0" if V == "constants" else "p0")
+                ok_params.append(z3.Implies(ops.to_z3(deps[(L, V)]), z3.BoolVal(bool(symbolic))))
+    eng.prove("affine.all_lists_are_written_over_the_vectors_the_model_keeps", z3.BoolVal(bool(ok_same)), lists=lists)
+    eng.prove("affine.evaluated_at_the_parameters_and_constants_its_own_equations_depend_on", z3.And(ok_params) if ok_params else True)
+
+
 HARNESSES = [("Model._simplify_once#eliminate_constant_assignments", h_constant_assignment),
              ("Model._simplify_once.extract_assignment", h_extract_assignment),
              ("Model._simplify_once.factor_and_simplify", h_factor_and_simplify),
-             ("Model._simplify_once._detect_alias", h_detect_alias), ("Model._simplify_once._make_alias", h_make_alias)]
-EXPECTED_COVER = {"const.done", "extract.done", "factor.done", "detect.done", "make.done"}
+             ("Model._simplify_once._detect_alias", h_detect_alias), ("Model._simplify_once._make_alias", h_make_alias),
+             ("Model._simplify_once#reduce_affine_expression", h_reduce_affine)]
+EXPECTED_COVER = {"const.done", "extract.done", "factor.done", "detect.done", "make.done", "affine.done"}
 BOUNDED = True
 LEVEL = "proof"
 TRUSTED = ["pyvc VC generator", "z3 5.1.0",
